@@ -116,10 +116,10 @@ PROPS = {
     "C07": {
         "modules": ["Qvnt.Props.C07", "Qvnt.Props.Code.C07"],
         "tie": [tie2(r"quant_(get_probabilities|get_absolute|measure_mask|measure_mask_weights|collapse_mask|rescale|sample_all)_eq|proposal_eq", r"UNSUPPORTED quant\.rs: register/quant\.rs::(collapse_mask|rescale|measure_mask|measure_mask\[weights\]|get_absolute|get_probabilities|sample_all):", creg=True)],
-        "suites": [suite("meas", dict(count=200, max_n=5), dict(count=4000, max_n=8)),
+        "suites": [suite("meas", dict(count=400, max_n=5), dict(count=4000, max_n=8)),
                    suite("born", dict(count=12, shots=2048), dict(count=300, shots=16384))],
         "mismatch_tags": [r"probs", r"measure.*"],
-        "spec_tags": [r"c07\..*"],
+        "spec_tags": [r"c07\..*", r"c06\.possible"],
         "trusted_base": [TB_TIE2] + TB_COMMON + ["rand::thread_rng + rand_distr::WeightedIndex draw index i with probability weight_i / total; rand_distr::StandardNormal draws are i.i.d. N(0,1) (contract, not verified)"],
         "assumptions": ASSUME_COMMON + ["PARTIAL by nature: the quality of the PRNG and the Gaussian approximation of a multinomial are statistics, not logic; they are covered by the born suite (chi-square on measure_mask frequencies, mean/variance of sample_all cells) with thresholds around p < 1e-12, as supporting evidence only"],
         "level_text": "Lean theorems over the reals (Props/C07.lean): the reported probabilities are |psi_i|^2 / norm^2; the probability of an outcome on a mask is the push-forward of the full-index draw and equals the sum of |psi_i|^2 over the consistent basis states over the norm; probabilities are invariant under positive rescaling; chain rule P(v1 on m1) * P(v2 on m2 | after measuring v1) = P(v1|v2 on m1|m2) for disjoint masks, hence the joint distribution does not depend on the order of measurement; the linear map sample_all applies to its normal draws has exactly the multinomial covariance diag(p) - p p^T. Partial: the statistical behaviour of the external generators is outside any theorem (see assumptions).",
